@@ -16,7 +16,8 @@ META = {
             "overcommit polling) that must be rejected. Conformance: under every plan the driver "
             "keeps 2/8..5/8 of a small heap alive and issues 13 request sizes (64 B .. usize::MAX, "
             "around the LOS threshold and the heap size) x 8 option combinations through "
-            "alloc_with_options; TLC evaluates the same Contract on the callbacks observed "
+            "alloc_with_options, with fixed and with dynamic heap sizes (first round on the still "
+            "minimal heap: requests between the current and the maximum size); TLC evaluates the same Contract on the callbacks observed "
             "between each call and its return (block_for_gc, collections, out_of_memory, result).",
     "note": "Trusted: TLC, ShadowVM callbacks as the observation of blocking/collections/OOM. "
             "'Overcommit does not block or fail' is required of requests <= heap/8 only (MMTk "
